@@ -38,7 +38,19 @@ fn build(seed: u64, depth: u32, exprs: usize, wrong: Option<usize>, only: Option
     let (mut ops, nh) = base_ops(&mut r);
     let mut trees = vec![];
     for i in 0..exprs {
-        let e = rand_lx(&mut r, nh, depth, 6, i % 5 == 0, 0);
+        // depth 7 marks the long-row family: term lists of 70..330 entries with repeated variables
+        let e = if depth >= 7 {
+            let len = [70usize, 130, 260, 330][i % 4];
+            let ts: Vec<(Option<usize>, Sc)> = (0..len).map(|j| (if j % 11 == 10 { None } else { Some((j * 7 + i) % nh) }, rand_sc(&mut r, j % 3 == 0, 0))).collect();
+            let base = Lx::Terms(ts, i % 2 == 0);
+            match i % 3 {
+                0 => base,
+                1 => Lx::Add(Box::new(base), Box::new(rand_lx(&mut r, nh, 2, 6, false, 0))),
+                _ => Lx::Sub(Box::new(rand_lx(&mut r, nh, 2, 6, false, 0)), Box::new(Lx::MulF(Box::new(base), rand_sc(&mut r, false, 0)))),
+            }
+        } else {
+            rand_lx(&mut r, nh, depth, 6, i % 5 == 0, 0)
+        };
         let d = nonzero_sc(&mut r);
         trees.push(e.clone());
         if let Some(o) = only {
@@ -132,7 +144,7 @@ fn run_case<G: AffineRepr>(env: &Env<G>, c: &Case) -> CaseOut {
 fn cases(ctx: &Ctx, curve: &str) -> Vec<Case> {
     let mut r = R::new(ctx.sub_seed(15, curve.len() as u64));
     let n = ctx.n(3000, 60000);
-    (0..n).map(|i| Case { curve: curve.into(), seed: r.u64(), depth: 1 + (i % 6) as u32, exprs: 8, only: None }).collect()
+    (0..n).map(|i| Case { curve: curve.into(), seed: r.u64(), depth: if i % 25 == 24 { 7 } else { 1 + (i % 6) as u32 }, exprs: 8, only: None }).collect()
 }
 
 const ALL_IMPLS: [&str; 23] = [
